@@ -9,7 +9,8 @@ Local Open Scope Z_scope.
 (** ---- the generated constants, as the proofs need them ---- *)
 Lemma maxBufSize_eq : maxBufSize = 32. Proof. reflexivity. Qed.
 Definition buf_len : nat := N.to_nat kfmt_numFmtBufLen.
-Lemma buf_len_eq : buf_len = 33%nat. Proof. reflexivity. Qed.
+(** any buffer of at least maxBufSize bytes is enough: 31 padded characters and the sign *)
+Lemma buf_len_ge : (32 <= buf_len)%nat. Proof. apply Nat.leb_le. reflexivity. Qed.
 Lemma buf_cap_eq : kfmt_numFmtBufCap = kfmt_numFmtBufLen. Proof. reflexivity. Qed.
 Lemma single_ok c : single c = Ok [c]. Proof. reflexivity. Qed.
 
@@ -400,7 +401,7 @@ Lemma int_core_spec buf divider padCh padLen neg uval :
   exists buf', length buf' = buf_len /\
     int_core buf divider padCh padLen neg uval = Ok ([int_out ds padCh k neg], buf').
 Proof.
-  intros Hlen Hd Hu Hpad Hch ds k. rewrite buf_len_eq in *.
+  intros Hlen Hd Hu Hpad Hch ds k. pose proof buf_len_ge as Hge.
   assert (Hd2 : (2 <= divider)%N /\ (divider <= 16)%N) by lia. destruct Hd2 as [Hd2 Hd16].
   assert (Hpow : (2 ^ 64 <= divider ^ N.of_nat 22)%N).
   { destruct Hd as [-> | [-> | ->]]; vm_compute; discriminate. }
@@ -415,11 +416,11 @@ Proof.
   rewrite maxBufSize_eq in *. cbn [app length] in D. change (Z.of_nat 0) with 0 in D.
   rewrite D by (cbn [Z.to_nat Pos.to_nat Pos.iter_op Nat.add]; lia). clear D. clear Hpow Hu. cbn [bind fst snd].
   set (post1 := skipn (length ds) buf).
-  assert (Hp1 : length post1 = (33 - length ds)%nat) by (unfold post1; rewrite skipn_length; lia).
+  assert (Hp1 : length post1 = (buf_len - length ds)%nat) by (unfold post1; rewrite skipn_length; lia).
   rewrite Nat.add_0_l.
   rewrite (pad_loop_spec k (S (length buf)) ds post1 padLen padCh) by (try reflexivity; lia).
   cbn [bind]. set (post2 := skipn k post1).
-  assert (Hp2 : length post2 = (33 - length ds - k)%nat) by (unfold post2; rewrite skipn_length; lia).
+  assert (Hp2 : length post2 = (buf_len - length ds - k)%nat) by (unfold post2; rewrite skipn_length; lia).
   clearbody post2. clearbody post1.
   assert (Hk : (length ds + k <= 31)%nat) by lia.
   destruct neg.
